@@ -1,0 +1,20 @@
+//go:build verif
+
+// Lemma functions for the verification of package set (ghost code: built only with the `verif` tag, never linked
+// into peg). A lemma function is verified like any other function, additionally for termination; its contract may then
+// be used at a ghost program point with `//@ ghost after "..." : use lemmaCard(s, a)`.
+
+package set
+
+// lemmaCard: two well-formed sets with the same elements have the same cardinality. The proof is the lockstep walk of
+// both lists: with equal elements the two canonical interval lists are equal interval by interval (see the invariants
+// in contracts_verif.go).
+func lemmaCard(s, a *Set) {
+	x, y := s.Head.Forward, a.Head.Forward
+	if x == nil || y == nil {
+		return
+	}
+	for x.Forward != nil && y.Forward != nil {
+		x, y = x.Forward, y.Forward
+	}
+}
